@@ -3,7 +3,7 @@
 import json, os, sys
 V = os.path.dirname(os.path.dirname(os.path.abspath(__file__)))
 
-HOOK_COMMITS = ['e6b7f67', 'dbf5f1c']
+HOOK_COMMITS = ['e6b7f67', 'dbf5f1c', 'f21fdb3']
 
 CHECKS = {
  'C13': dict(
@@ -191,6 +191,23 @@ CHECKS = {
     note='F33 (queued requests written to a connection that failed authentication / was stopped) found by this check and repaired. The connection '
          'shutdown is slowed by 5 ms at the verif hook conn.teardown so that goroutines woken by it run before the socket closes.',
     technique='TLA+ spec + TLC exhaustive + scenario replay against the real client with trace validation'),
+ 'C19': dict(
+    engine='NodeLifecycle',
+    category='model_checking',
+    text='TLA+ specification of the node life cycle at the level of what the peer, the handlers, the caller of Stop, the phase hooks of the run loop '
+         'and the storage observe (spec/NodeLifecycle.tla: connect loop, handshake, header/block sync, relevant txs, loss of the connection with '
+         'phased shutdown and restart, Stop, a handler call-back held in the middle of a block with the shutdown waiting for it). TLC checks '
+         'SavedAtStop, SavedAtRestart, StopReturns and the step properties exhaustively. TLC-simulated scenarios (Stop held back 0/4/8/12 steps) and '
+         'directed scenarios stopping at every protocol phase are run against the real Node.Run() with all its goroutines and a scripted Bitcoin peer '
+         'over real loop-back TCP (accept, close, reset); TLC evaluates on the recorded observations: StopTerminates (Stop returns within 5 s, Run '
+         'returns), SavedAtStop / SavedAtRestart (what a fresh process loads from storage equals what was processed: chain tip, unconfirmed txs, '
+         'peers), SilentAfterStop (no call-back after Stop returned), ResumeFromTip (the first block locator of a new connection names the stored '
+         'tip), NoReannounce (announced heights are consecutive over reconnects), PhaseOrder; and validates every step against the specification.',
+    design_ref='DESIGN.md 5.8, 6 (C19)',
+    note='No untrusted peers and no silent peer (time-outs of minutes) are scripted; the goroutines of a connection are assumed started before a '
+         'stop is requested. F19 (a failing tx consumer with a full channel blocks the shutdown) needs an environment fault outside the '
+         'property\'s quantifier and is described in DESIGN.md only.',
+    technique='TLA+ spec + TLC exhaustive + scenario replay against the real Run()/Stop() over loop-back TCP with trace validation'),
 }
 
 NOT_YET = {}
